@@ -30,6 +30,10 @@ pub struct P {
     pub init: (usize, usize, u8, bool),
     pub init_updates: u8,
     pub budget: usize,
+    /// per instance: how many suspicions about itself it has refuted before the exchange (own incarnation >= 1:
+    /// a long-lived member; TurnUndead and other verdicts always carry incarnation 0)
+    #[serde(default)]
+    pub refuted: Vec<u8>,
 }
 
 const GEN: u32 = 5;
@@ -56,6 +60,10 @@ pub fn gen_params(seed: u64) -> P {
         init: (a, b, s.below(11) as u8, s.chance(1, 3)),
         init_updates: s.below(4) as u8,
         budget: 400,
+        refuted: {
+            let mut s2 = Stream::new(seed, "c18-params-2");
+            (0..n).map(|_| *s2.pick(&[0u8, 0, 1, 1, 2, 3])).collect()
+        },
     }
 }
 
@@ -83,6 +91,10 @@ pub fn execute(p: &P, seed: u64) -> RunOut {
         .collect();
     // mutual knowledge; whatever these calls send is discarded (the exchange starts afterwards)
     for a in 0..p.n {
+        for _ in 0..p.refuted.get(a).copied().unwrap_or(0) {
+            let inc = ds[a].obs.snap.incarnation;
+            ds[a].step(Input::ApplyMany(vec![Member::new(ids[a], inc, State::Suspect)], p.broadcast[a]));
+        }
         let ups: Vec<Member<SimId>> = (0..p.n).filter(|b| *b != a).filter_map(|b| told(p.knowledge[a][b], ids[b])).collect();
         if !ups.is_empty() {
             ds[a].step(Input::ApplyMany(ups, p.broadcast[a]));
